@@ -253,12 +253,11 @@ pub fn c07_native<G: AffineRepr + 'static>(case: &crate::scen_c07::BatchCase, se
         let (l, r, a, b) = ipp.verif_parts();
         let ps: Vec<R1CSProof<G>> = ds.iter().map(|d| R1CSProof::verif_from_parts(pts, scs, InnerProductProof::verif_from_parts(l.to_vec(), r.to_vec(), a, b + d))).collect();
         let shapes0: Vec<Shape> = (0..kk).map(|_| shapes[0].clone()).collect();
-        let shrs0: Vec<_> = (0..kk).map(|_| shrs[0].clone()).collect();
-        // the same shared tape is replayed for every copy (same statement)
+        // every copy gets its own replaying state of the same statement
+        let shrs0: Vec<_> = (0..kk).map(|_| fork_for_verifier(&shapes[0], &shrs[0])).collect();
         let mut ts: Vec<Transcript> = shapes0.iter().map(|s| new_verifier_transcript(s)).collect();
         let mut insts = vec![];
         for (i, vt) in ts.iter_mut().enumerate() {
-            rewind_for_verifier(&shrs0[i]);
             insts.push((build_verifier(&shapes0[i], &shrs0[i], vt), &ps[i]));
         }
         let mut rng = rand_chacha::ChaChaRng::seed_from_u64(seed ^ 0xa1fa);
